@@ -143,6 +143,22 @@ class Cover:
         elif k == "SwitchStmt":
             for st in states:
                 out += self.switchm(n, st)
+        elif k == "WhileStmt" and self._counted_while(n) is not None:
+            # while (v < C) { ...; v++ }: either the loop is not entered (v >= C already) or it exits with v == C
+            v, C = self._counted_while(n)
+            for st in states:
+                inv = self.loop(n, self._copy(st))
+                if inv is None:
+                    continue
+                out.append(self._copy(st))                      # not entered
+                diff = lin_add(inv["cov"], {v: 1}, -1)
+                if any(sym == v for sym in diff if sym):
+                    out.append(inv)                              # cov is not tied to v: keep the invariant state
+                    continue
+                ex = self._copy(inv)
+                ex["cov"] = lin_add(lin_const(C), diff)
+                ex = self._set(ex, v, lin_const(C))
+                out.append(ex)
         else:
             for st in states:
                 r = self.block(n, st)
@@ -159,6 +175,29 @@ class Cover:
                 j = self._join(j, u, n)
             uniq = [j]
         return uniq
+
+    def _counted_while(self, n):
+        """(v, C) for `while (v < C) body` where C is an integer constant and the body changes v only by one unconditional v++"""
+        raw = n.get("inner", [])
+        cond, body = strip(raw[0]), raw[1]
+        if not (cond.get("kind") == "BinaryOperator" and cond.get("opcode") == "<"):
+            return None
+        v = ref_name(strip(kids(cond)[0], casts=True))
+        C = ConstEval(self.prog).try_eval(kids(cond)[1])
+        if not v or C is None:
+            return None
+        incs = 0
+        from .core import walk_with_parents
+        for m, parents in walk_with_parents(body):
+            if m.get("kind") in ("BinaryOperator", "CompoundAssignOperator") and m.get("opcode", "").endswith("=") and \
+                    m.get("opcode") not in ("==", "!=", "<=", ">=") and ref_name(strip(kids(m)[0], casts=True)) == v:
+                return None
+            if m.get("kind") == "UnaryOperator" and m.get("opcode") in ("++", "--") and ref_name(strip(kids(m)[0], casts=True)) == v:
+                if m["opcode"] == "--" or any(p.get("kind") in ("IfStmt", "WhileStmt", "ForStmt", "DoStmt", "SwitchStmt", "ConditionalOperator")
+                                               for p in parents):
+                    return None
+                incs += 1
+        return (v, C) if incs == 1 else None
 
     def switchm(self, n, st):
         ks = kids(n)
